@@ -1,0 +1,98 @@
+//go:build verif
+
+package ants
+
+import "context"
+
+// Verification hooks (build tag verif). A harness installs VerifYield to take control of every
+// preemption point of the pool code; without the tag verifYield / verifYieldT are no-ops.
+
+// Yield sites: each is placed BEFORE the shared access / channel operation it names.
+const (
+	VerifSiteSendLen         = 1 + iota // Send: before the len(taskChan) == cap(taskChan) test
+	VerifSiteSendEnqueue                // Send: before select { taskChan <- task | <-closeChan }
+	VerifSiteDispatchRecv               // goDispatchTask: before select { <-taskChan | <-closeChan }
+	VerifSiteInnerEnqueue               // sendInnerCallback: before select { innerCallbackChan <- cb | <-closeChan }
+	VerifSiteInnerRecv                  // goDispatchInnerCallback: before select { <-innerCallbackChan | <-closeChan }
+	VerifSiteCtxTest                    // inner callback: after the handler, before the non-blocking ctx1.Done() test
+	VerifSiteAttemptSendDead            // inner callback: before doneChan <- (nil, DeadlineExceeded)
+	VerifSiteAttemptSendRes             // inner callback: before doneChan <- (result, err)
+	VerifSiteDispatchSelect             // runTaskOnce: before select { <-doneChan | <-ctx1.Done() }
+	VerifSiteStoreResult                // runTaskOnce: before my.result, my.err = r.result, r.err
+	VerifSiteStoreTimeout               // runTaskOnce: before my.result, my.err = nil, DeadlineExceeded
+	VerifSiteCancel                     // runTaskOnce: before the deferred cancel()
+	VerifSiteReadErr                    // run: before the read of my.err after an attempt
+	VerifSiteOnError                    // run: before the error callback (reads my.err)
+	VerifSiteWgDone                     // run: before the deferred my.wg.Done()
+	VerifSiteGetWait                    // Get2: before my.wg.Wait()
+)
+
+// VerifYield is called before each shared access of the instrumented functions.
+var VerifYield func(site int)
+
+// VerifSiteTask is the task whose code reached the last yield of a task-level site (Dispatch
+// Select .. GetWait); nil for the pool-level sites.
+var VerifSiteTask Task
+
+func verifYield(site int) {
+	if VerifYield != nil {
+		VerifSiteTask = nil
+		VerifYield(site)
+	}
+}
+
+func verifYieldT(site int, t *taskCallback) {
+	if VerifYield != nil {
+		VerifSiteTask = t
+		VerifYield(site)
+	}
+}
+
+// VerifNewPoolNoWorkers is NewPool without the dispatcher / inner-callback goroutines and without
+// the finalizer: the harness runs VerifRunDispatcher / VerifRunInner on goroutines of its own (the
+// logical threads of a cooperative scheduler) and closes the pool with VerifClose.
+func VerifNewPoolNoWorkers(options ...PoolOption) Pool {
+	var opts = createPoolOptions(options)
+	return &wrapper{&poolImpl{
+		taskChan:          make(chan Task, opts.size),
+		innerCallbackChan: make(chan func(), opts.size),
+		closeChan:         make(chan struct{}),
+	}}
+}
+
+func verifImpl(p Pool) *poolImpl {
+	return p.(*wrapper).poolImpl
+}
+
+// VerifRunDispatcher is the body of one dispatcher goroutine (returns when the pool is closed).
+func VerifRunDispatcher(p Pool, ctx context.Context) {
+	verifImpl(p).goDispatchTask(ctx)
+}
+
+// VerifRunInner is the body of one inner-callback goroutine (returns when the pool is closed).
+func VerifRunInner(p Pool) {
+	verifImpl(p).goDispatchInnerCallback()
+}
+
+// VerifClose is what the finalizer of the pool does.
+func VerifClose(p Pool) {
+	close(verifImpl(p).closeChan)
+}
+
+// VerifLens reports the lengths of the two channels and their common capacity (no yields).
+func VerifLens(p Pool) (tasks int, inner int, size int) {
+	var my = verifImpl(p)
+	return len(my.taskChan), len(my.innerCallbackChan), cap(my.taskChan)
+}
+
+// VerifTaskState reads result and err of a task without synchronisation and without yields (to be
+// called only while every thread is parked); discarded = the task was rejected by Send.
+func VerifTaskState(t Task) (result any, err error, discarded bool) {
+	switch x := t.(type) {
+	case *taskCallback:
+		return x.result, x.err, false
+	case *taskDiscard:
+		return nil, errDiscard, true
+	}
+	return nil, nil, false
+}
